@@ -50,6 +50,7 @@ Sniff(first) == IF first = 62 THEN "fasta" ELSE IF first = 35 THEN "nexus" ELSE 
 HopJudged(e) == Len(e.in) >= 1 /\ \A k \in 1..Len(e.in) : Representable(e.h.fmt, e.h.strict, e.in[k])
 HopChecks(e) ==
   [noPanic     |-> e.kind # "panic",
+   returns     |-> e.kind # "hang",
    parsed      |-> e.kind = "ok",
    count       |-> e.kind = "ok" => Len(e.out) = Len(e.in),
    parsedEqual |-> (e.kind = "ok" /\ Len(e.out) = Len(e.in)) => \A k \in 1..Len(e.in) : SameAl(e.out[k], Delivered(e.in[k])),
